@@ -197,7 +197,7 @@ package cert
 //@   modifies cache.entries[*], cache.accessOrder, alloc
 
 //@ func (*Cache).Verify property C11,C03,C10,C02,C07,C08,C09
-//@   requires cinv(cache) && signature != nil
+//@   requires cinv(cache)
 //@   ensures [sound] result == nil ==> vok(cache.impl, signature, content(message))
 //@   ensures [inv] cinv(cache)
 //@   modifies cache.entries[*], cache.accessOrder, trace(ws), alloc
@@ -219,20 +219,21 @@ package cert
 // hashed (ghost trace `hw` of the writes to the hasher, ghost trace `hid` of the ids put into
 // the header) is, for the keys of the batch in strictly ascending order, each exactly once:
 // the 12-byte header holding the id (4 bytes at 0) and the message length (8 bytes at 4),
-// followed by the message itself. The verdict structure: a hit returns nil without asking
+// followed by the message itself (for a nil signature nothing is hashed: the call is handed to
+// impl as it is). The verdict structure: a hit returns nil without asking
 // impl; otherwise impl's verdict is returned unchanged and the key is inserted only after impl
 // accepted. Not proved: that the key names the verdict (the digest value is outside the
 // model; the explicit assumption at the call of insert says so).
 //@ pure func bhdr(id hotstuff.ID, n int) int = abytes(aput(aput(0, 0, 4, id), 4, 8, n))
 //@ func (*Cache).BatchVerify property C11,C02,C03,C07,C08,C09,C10
-//@   requires cinv(cache) && signature != nil && (forall id hotstuff.ID :: {has(batch, id)} has(batch, id) ==> len(batch[id]) <= 281474976710656)
+//@   requires cinv(cache) && (forall id hotstuff.ID :: {has(batch, id)} has(batch, id) ==> len(batch[id]) <= 281474976710656)
 //@   ghost at call Hash.Write :: emit hw(content(op1), len(op1))
 //@   ghost at call PutUint32 :: emit hid(op2)
 //@   ghost at call BatchVerify :: emit asked(1)
 //@   ghost at call insert :: emit inserted(tracelen(asked))
 //@   ghost at call insert :: assume kvalid(cache.impl, op1)
-//@   ensures [ids-are-the-keys-ascending] tracelen(hid) == old(tracelen(hid)) + len(batch) && (forall k int :: {traceat(hid, 0, k)} old(tracelen(hid)) <= k && k < tracelen(hid) ==> has(batch, traceat(hid, 0, k))) && (forall k int, m int :: {traceat(hid, 0, k), traceat(hid, 0, m)} old(tracelen(hid)) <= k && k < m && m < tracelen(hid) ==> traceat(hid, 0, k) < traceat(hid, 0, m))
-//@   ensures [hashed-header-then-message] tracelen(hw) == old(tracelen(hw)) + 2 * len(batch) && (forall k int :: {traceat(hid, 0, k)} old(tracelen(hid)) <= k && k < tracelen(hid) ==> traceat(hw, 0, old(tracelen(hw)) + 2 * (k - old(tracelen(hid)))) == bhdr(traceat(hid, 0, k), len(batch[traceat(hid, 0, k)])) && traceat(hw, 1, old(tracelen(hw)) + 2 * (k - old(tracelen(hid)))) == 12 && traceat(hw, 0, old(tracelen(hw)) + 2 * (k - old(tracelen(hid))) + 1) == content(batch[traceat(hid, 0, k)]) && traceat(hw, 1, old(tracelen(hw)) + 2 * (k - old(tracelen(hid))) + 1) == len(batch[traceat(hid, 0, k)]))
+//@   ensures [ids-are-the-keys-ascending] signature != nil ==> tracelen(hid) == old(tracelen(hid)) + len(batch) && (forall k int :: {traceat(hid, 0, k)} old(tracelen(hid)) <= k && k < tracelen(hid) ==> has(batch, traceat(hid, 0, k))) && (forall k int, m int :: {traceat(hid, 0, k), traceat(hid, 0, m)} old(tracelen(hid)) <= k && k < m && m < tracelen(hid) ==> traceat(hid, 0, k) < traceat(hid, 0, m))
+//@   ensures [hashed-header-then-message] signature != nil ==> tracelen(hw) == old(tracelen(hw)) + 2 * len(batch) && (forall k int :: {traceat(hid, 0, k)} old(tracelen(hid)) <= k && k < tracelen(hid) ==> traceat(hw, 0, old(tracelen(hw)) + 2 * (k - old(tracelen(hid)))) == bhdr(traceat(hid, 0, k), len(batch[traceat(hid, 0, k)])) && traceat(hw, 1, old(tracelen(hw)) + 2 * (k - old(tracelen(hid)))) == 12 && traceat(hw, 0, old(tracelen(hw)) + 2 * (k - old(tracelen(hid))) + 1) == content(batch[traceat(hid, 0, k)]) && traceat(hw, 1, old(tracelen(hw)) + 2 * (k - old(tracelen(hid))) + 1) == len(batch[traceat(hid, 0, k)]))
 //@   ensures [asks-impl-at-most-once] tracelen(asked) <= old(tracelen(asked)) + 1
 //@   ensures [error-is-impls] result != nil ==> tracelen(asked) == old(tracelen(asked)) + 1 && tracelen(inserted) == old(tracelen(inserted))
 //@   ensures [inserts-only-after-impl-accepted] tracelen(inserted) <= old(tracelen(inserted)) + 1 && (tracelen(inserted) > old(tracelen(inserted)) ==> result == nil && tracelen(asked) == old(tracelen(asked)) + 1 && traceat(inserted, 0, old(tracelen(inserted))) == tracelen(asked))
